@@ -1584,10 +1584,30 @@ theorem mkPool_get (c : PCfg) : ∀ (us : List PUp) (ls fs : List Nat) (i : Nat)
 def CanTake (c : PCfg) (loads : List Nat) (i : Nat) : Prop :=
   ∃ l u, loads[i]? = some l ∧ c.ups[i]? = some u ∧ (0 < effLimit c.m u → l < effLimit c.m u)
 
+theorem poolOf_get {c : PCfg} {s : PState} {i : Nat} {u : Up} (h : (poolOf c s)[i]? = some u) :
+    ∃ pu, c.ups[i]? = some pu ∧ s.loads[i]? = some u.load ∧ u.maxReq = effLimit c.m pu ∧ u.cb = s.cb := by
+  unfold poolOf at h
+  rw [List.getElem?_map] at h
+  cases h0 : (mkPool c c.ups s.loads s.fails)[i]? with
+  | none => simp [h0] at h
+  | some u0 =>
+    simp [h0] at h
+    obtain ⟨pu, h1, h2, h3⟩ := mkPool_get c c.ups s.loads s.fails i u0 h0
+    subst h
+    exact ⟨pu, h1, h2, h3, rfl⟩
+
 theorem canTake_of_sel {c : PCfg} {s : PState} {i : Nat} (h : selRes c s = .sel i) : CanTake c s.loads i := by
   obtain ⟨u, hu, hav⟩ := select_safe _ _ _ _ i h
-  obtain ⟨pu, h1, h2, h3⟩ := mkPool_get c c.ups s.loads s.fails i u hu
+  obtain ⟨pu, h1, h2, h3, _⟩ := poolOf_get hu
   exact ⟨u.load, pu, h2, h1, fun hm => by have := avail_below_limit hav (by omega); omega⟩
+
+/-- an open circuit breaker makes every upstream unavailable -/
+theorem tripped_none_available {c : PCfg} {s : PState} (h : s.cb = some false) (i : Nat) : selRes c s ≠ .sel i := by
+  intro hsel
+  obtain ⟨u, hu, hav⟩ := select_safe _ _ _ _ i hsel
+  obtain ⟨_, _, _, _, hcb⟩ := poolOf_get hu
+  rw [h] at hcb
+  simp [Up.avail, Up.isHealthy, hcb] at hav
 
 /-- what one run of the proxy loop guarantees -/
 structure AttPost (c : PCfg) (hold : Bool) (left : Nat) (loads : List Nat) (held : List (Option Nat))
@@ -1814,6 +1834,8 @@ theorem pstep_inv (c : PCfg) (s : PState) (e : Ev) (h : PInv c s) : PInv c (pste
         · simp [hji] at hl
           exact h.2 j l v hl hv hpos
     · exact h
+  | trip => simpa only [pstep] using h
+  | untrip => simpa only [pstep] using h
 
 theorem prun_inv (c : PCfg) : ∀ (evs : List Ev) (s : PState), PInv c s → PInv c (prun c s evs).2
   | [], s, h => h
@@ -1901,5 +1923,102 @@ theorem weightsOf_spec : ∀ (args : List Bytes) (ws : List Int), weightsOf args
           cases i with
           | zero => simp at hx; subst hx; exact ⟨v, rfl, ha, by omega⟩
           | succ i => simpa using h2 i x (by simpa using hx)
+
+/-! ### random_choose: how many draws it needs -/
+
+/-- every draw is accepted by `Int31n(n)` for every `n ≤ L` (its `Int31()` value is not in the
+    rejected top sliver, which is smaller than `n`) -/
+def Accepted (L : Nat) (ds : List Nat) : Prop := ∀ d ∈ ds, int31 d + L ≤ 2147483648
+
+theorem intn_accepted {n L : Nat} (hn : 0 < n) (hL : n ≤ L) {d : Nat} {ds : List Nat} (h : Accepted L (d :: ds)) :
+    intn n (d :: ds) = some (int31 d % n, ds) := by
+  have hd := h d (List.mem_cons_self ..)
+  have hm : 2147483648 % n < n := Nat.mod_lt _ hn
+  unfold intn
+  rw [if_neg]
+  unfold intnMax
+  omega
+
+theorem accepted_tail {L : Nat} {d : Nat} {ds : List Nat} (h : Accepted L (d :: ds)) : Accepted L ds :=
+  fun x hx => h x (List.mem_cons_of_mem _ hx)
+
+theorem rcGo_draws (k L : Nat) : ∀ (rest : Pool) (i : Nat) (ch : List Cand) (seen : Nat) (ds : List Nat),
+    Accepted L ds → seen + rest.length ≤ L → rest.length ≤ ds.length →
+    ∃ out ds', rcGo k rest i ch seen ds = some (out, ds') ∧ Accepted L ds' ∧ ds.length ≤ ds'.length + rest.length
+  | [], i, ch, seen, ds, ha, _, _ => ⟨ch, ds, rfl, ha, by simp⟩
+  | u :: rest, i, ch, seen, ds, ha, hs, hl => by
+    simp at hs hl
+    unfold rcGo
+    split
+    · split
+      · obtain ⟨out, ds', h1, h2, h3⟩ := rcGo_draws k L rest (i + 1) (ch ++ [(i, u.load)]) (seen + 1) ds ha (by omega) (by omega)
+        exact ⟨out, ds', h1, h2, by simp; omega⟩
+      · cases ds with
+        | nil => simp at hl
+        | cons d ds =>
+          rw [intn_accepted (by omega) (by omega) ha]
+          simp only
+          simp at hl
+          split
+          · obtain ⟨out, ds', h1, h2, h3⟩ := rcGo_draws k L rest (i + 1) (ch.set (int31 d % (seen + 1)) (i, u.load)) (seen + 1) ds
+              (accepted_tail ha) (by omega) (by omega)
+            exact ⟨out, ds', h1, h2, by simp; omega⟩
+          · obtain ⟨out, ds', h1, h2, h3⟩ := rcGo_draws k L rest (i + 1) ch (seen + 1) ds (accepted_tail ha) (by omega) (by omega)
+            exact ⟨out, ds', h1, h2, by simp; omega⟩
+    · obtain ⟨out, ds', h1, h2, h3⟩ := rcGo_draws k L rest (i + 1) ch seen ds ha (by omega) (by omega)
+      exact ⟨out, ds', h1, h2, by simp; omega⟩
+
+theorem lrGo_length : ∀ (rest : List Cand) (best : List Nat) (br : Option Nat) (b : List Nat),
+    lrGo rest best br = .inr b → b.length ≤ best.length + rest.length
+  | [], best, br, b, h => by simp [lrGo] at h; subst h; simp
+  | (i, l) :: rest, best, br, b, h => by
+    unfold lrGo at h
+    split at h
+    · cases h
+    · split at h
+      · have := lrGo_length rest [i] (some l) b h; simp at this ⊢; omega
+      · split at h
+        · have := lrGo_length rest (best ++ [i]) br b h; simp at this ⊢; omega
+        · have := lrGo_length rest best br b h; simp; omega
+
+theorem lrPick_draws {L : Nat} (best : List Nat) (ds : List Nat) (hb : best.length ≤ L) (ha : Accepted L ds)
+    (hd : ds ≠ []) : (lrPick best ds).1 ≠ .starved := by
+  unfold lrPick
+  split
+  · simp
+  · simp
+  · rename_i h1 h2
+    cases ds with
+    | nil => exact absurd rfl hd
+    | cons d ds =>
+      have hpos : 0 < best.length := by
+        cases best with
+        | nil => exact absurd rfl h1
+        | cons x xs => simp
+      rw [intn_accepted hpos hb ha]
+      simp only
+      split <;> simp
+
+/-- the reservoir loop and leastRequests together use at most one draw per upstream plus one -/
+theorem selRandomChoose_draws (k : Nat) (pool : Pool) (ds : List Nat)
+    (ha : Accepted pool.length ds) (hl : pool.length + 1 ≤ ds.length) :
+    (selRandomChoose k pool ds).1 ≠ .starved := by
+  obtain ⟨out, ds', h1, h2, h3⟩ := rcGo_draws (min k pool.length) pool.length pool 0 [] 0 ds ha (by omega) (by omega)
+  have hinv := rcGo_inv (min k pool.length) pool [] [] 0 ds out ds' ⟨by simp, by simp⟩ (by simp) (by simp [numAvail])
+    (by simpa using h1)
+  simp only [List.nil_append] at hinv
+  have hout : out.length ≤ pool.length := by rw [hinv.2]; omega
+  unfold selRandomChoose
+  rw [h1]
+  simp only
+  unfold leastRequests
+  split
+  · simp
+  · split
+    · simp
+    · rename_i best hb
+      have := lrGo_length out [] none best hb
+      simp at this
+      exact lrPick_draws best ds' (by omega) h2 (by intro hnil; subst hnil; simp at h3; omega)
 
 end CaddyModel.C08
